@@ -64,6 +64,7 @@ func runC10(c *eng.Ctx) {
 	ruleClientStopOffsetIsNeverTheSentinel(c)
 	c.Rule("R10.8", "K1")
 	ruleTimestampPositionsFollowTheDirection(c)
+	ruleReverseStartIsNotClamped(c)
 	c.Rule("R03.4", "K1")
 	ruleReplacedWatermarkSegmentReinitialises(c)
 	c.Rule("R03.7", "K1")
